@@ -33,6 +33,15 @@ func ShuffleShardExpectedInstancesPerZone(shardSize, numZones int) int {
 	if shardSize == math.MaxInt {
 		return math.MaxInt
 	}
+	if numZones > 0 {
+		// Integer ceiling: float64 cannot represent sizes close to math.MaxInt, and converting the
+		// rounded-up quotient back to int overflows.
+		perZone := shardSize / numZones
+		if shardSize%numZones > 0 {
+			perZone++
+		}
+		return perZone
+	}
 	return int(math.Ceil(float64(shardSize) / float64(numZones)))
 }
 
